@@ -167,6 +167,92 @@ func checkPoly(c polyCase, o *kit.Obs) error {
 	return nil
 }
 
+// ---- quadratics (and cubics) whose roots differ by many orders of magnitude: a tiny leading or
+// constant coefficient, where -b +- sqrt(b^2 - 4ac) cancels catastrophically
+
+type quadCase struct {
+	R1 float64 `json:"r1"` // moderate root, 0.1 <= |r1| <= 10
+	R2 float64 `json:"r2"` // |r2/r1| or |r1/r2| in [1e3, 1e17]
+	R3 float64 `json:"r3"` // 0: quadratic; else a second moderate root (cubic), separated from r1 by >= 0.3
+	A  float64 `json:"a"`  // leading coefficient
+}
+
+func genQuad(t *rapid.T) quadCase {
+	sign := func(label string) float64 {
+		if rapid.Bool().Draw(t, label) {
+			return -1
+		}
+		return 1
+	}
+	c := quadCase{R1: sign("neg1") * LogF(t, 0.1, 10, "r1")}
+	rho := LogF(t, 1e3, 1e17, "ratio")
+	if rapid.Bool().Draw(t, "small") {
+		c.R2 = sign("neg2") * math.Abs(c.R1) / rho
+	} else {
+		c.R2 = sign("neg2") * math.Abs(c.R1) * rho
+	}
+	if rapid.IntRange(0, 2).Draw(t, "cubic") == 0 {
+		// known finding: the closed-form cubic loses its digits (and roots) in the same situation
+		if kit.Excluded("poly-cubic-scale-separation") {
+			kit.CountExcluded("poly-cubic-scale-separation")
+		} else {
+			c.R3 = c.R1 + sign("neg3")*(rootSep+F(t, 0, 5, "gap3"))
+			if c.R3 == 0 {
+				c.R3 = rootSep
+			}
+		}
+	}
+	// scale so that the coefficients are of moderate size: the leading one is tiny when r2 is huge
+	c.A = sign("nega") * LogF(t, 0.1, 10, "a") / math.Max(1, math.Abs(c.R2))
+	return c
+}
+
+func checkQuad(c quadCase, o *kit.Obs) error {
+	a1, a2 := math.Abs(c.R1), math.Abs(c.R2)
+	ratio := math.Max(a1/a2, a2/a1)
+	if !(a1 >= 0.0999 && a1 <= 10.01) || !(ratio >= 999 && ratio <= 1e18) || !(math.Abs(c.A) > 1e-20 && math.Abs(c.A) < 11) ||
+		(c.R3 != 0 && !(math.Abs(c.R3-c.R1) >= rootSep-1e-9 && math.Abs(c.R3) <= 16)) {
+		return fmt.Errorf("%w: malformed scale-separated case", kit.ErrInfra)
+	}
+	roots := []float64{c.R1, c.R2}
+	p := polyMul([]float64{c.A}, polyMul([]float64{-c.R1, 1}, []float64{-c.R2, 1}))
+	if c.R3 != 0 && kit.Excluded("poly-cubic-scale-separation") {
+		kit.CountExcluded("poly-cubic-scale-separation")
+		return nil
+	}
+	if c.R3 != 0 {
+		p = polyMul(p, []float64{-c.R3, 1})
+		roots = append(roots, c.R3)
+		o.Label("cubic")
+	} else {
+		o.Label("quadratic")
+	}
+	if a2 > a1 {
+		o.Label("tiny-leading-coefficient")
+	} else {
+		o.Label("tiny-constant-coefficient")
+	}
+	o.Labelf("ratio:1e%d", int(math.Log10(ratio))/4*4)
+	o.NonTrivial()
+	sort.Float64s(roots)
+	got := append([]float64(nil), numerical.Polynomial(p).RealRoots()...)
+	sort.Float64s(got)
+	if len(got) != len(roots) {
+		return fmt.Errorf("RealRoots of %v returned %v, planted roots %v", p, got, roots)
+	}
+	for i := range got {
+		// roots of such different magnitudes are well conditioned relative to their own size (relative
+		// condition ~1).  The library switches to the cancellation-free quadratic formula only below
+		// 4ac/b^2 = 1e-6, so just above that threshold about six digits are lost: measured worst
+		// relative error 2.7e-10, tolerance 1e-8
+		tol := 1e-8 * math.Abs(roots[i])
+		if !within(fmt.Sprintf("poly/scales/deg%d", len(roots)), math.Abs(got[i]-roots[i]), tol) {
+			return fmt.Errorf("RealRoots of %v returned %v, planted roots %v (root %d off by %g relative)", p, got, roots, i, math.Abs(got[i]-roots[i])/math.Abs(roots[i]))
+		}
+	}
+	return nil
+}
+
 // ---------------------------------------------------------------------------
 // optimisers
 
